@@ -1,5 +1,6 @@
 import Memterm.Props.Frame
 import Memterm.Parser
+import Memterm.Spec.C05
 
 /-
   C05 — Cursor movement and addressing follow the documented clamping rules.
@@ -16,37 +17,6 @@ namespace Memterm
 namespace C05
 
 open Gen
-
-/-- the documented new cursor position `(x, y)` for the fourteen operations -/
-def expected (s : Screen) : Call → Option (Nat × Nat)
-  | .cursorUp n => some (s.cursor.x, max (s.cursor.y - nz n) (topMargin s))
-  | .cursorDown n => some (s.cursor.x, min (s.cursor.y + nz n) (bottomMargin s))
-  | .cursorForward n => some (min (s.cursor.x + nz n) (s.columns - 1), s.cursor.y)
-  | .cursorBack n => some (min s.cursor.x (s.columns - 1) - nz n, s.cursor.y)
-  | .cursorDown1 n => some (0, min (s.cursor.y + nz n) (bottomMargin s))
-  | .cursorUp1 n => some (0, max (s.cursor.y - nz n) (topMargin s))
-  | .cursorToColumn n => some (min (nz n - 1) (s.columns - 1), s.cursor.y)
-  | .cursorToLine n =>
-    match s.margins, s.mode DECOM with
-    | some (t, b), true => some (s.cursor.x, min (nz n - 1 + t) b)
-    | _, _ => some (s.cursor.x, min (nz n - 1) (s.lines - 1))
-  | .cursorPosition l c =>
-    match s.margins, s.mode DECOM with
-    | some (t, b), true =>
-      if nz l - 1 + t ≤ b then some (min (nz c - 1) (s.columns - 1), nz l - 1 + t)
-      else some (s.cursor.x, s.cursor.y)
-    | _, _ => some (min (nz c - 1) (s.columns - 1), min (nz l - 1) (s.lines - 1))
-  | .backspace => some (min s.cursor.x (s.columns - 1) - 1, s.cursor.y)
-  | .cariageReturn => some (0, s.cursor.y)
-  | _ => none
-
-/-- executable predicate: documented position reached and nothing else changed -/
-def propC05 (cands : List Nat) (pre : Screen) (c : Call) (post : Screen) : Bool :=
-  match expected pre c with
-  | none => true
-  | some (x, y) =>
-    post.cursor.x == x && post.cursor.y == y &&
-    sameSettingsB cands pre post && sameCellsB pre post && sameDirtyB pre post
 
 /-! #### parameter defaulting -/
 
@@ -245,13 +215,6 @@ theorem dispatch_CR : basicDispatch 13 = [.cariageReturn] := by rfl
 /-! #### non-vacuity: a concrete well-formed state with a region, origin mode and a
     pending-wrap cursor, on which the closed forms are evaluated -/
 
-def exampleState : Screen :=
-  let s := init 5 4
-  let s := setMargins s (some 2) (some 3)
-  let s := setMode s [6] true
-  let s := cursorForward s (some 9)
-  draw { W := fun _ => 1, CM := fun _ => false, NFC := id } s [120]
-
 example : exampleState.cursor.x = 5 ∧ exampleState.cursor.y = 1 ∧ exampleState.margins = some (1, 2) ∧
     exampleState.mode DECOM = true := by decide
 
@@ -261,3 +224,4 @@ example : expected exampleState (.cursorBack none) = some (3, 1) := by decide
 
 end C05
 end Memterm
+
